@@ -46,6 +46,7 @@ def fork_call(fn, args=(), timeout: float = 60.0):
             except BaseException:  # noqa: BLE001
                 payload = ("err", traceback.format_exc())
             data = pickle.dumps(payload, protocol=4)
+            data = len(data).to_bytes(8, "big") + data  # length prefix: the parent stops at the end of the payload
             view = memoryview(data)
             while view:
                 n = os.write(w, view)
@@ -57,10 +58,12 @@ def fork_call(fn, args=(), timeout: float = 60.0):
             os._exit(code)
     os.close(w)
     chunks = []
+    got = 0
+    need = None
     deadline = time.monotonic() + timeout
     timed_out = False
     try:
-        while True:
+        while need is None or got < need + 8:
             left = deadline - time.monotonic()
             if left <= 0:
                 timed_out = True
@@ -71,8 +74,11 @@ def fork_call(fn, args=(), timeout: float = 60.0):
                 break
             buf = os.read(r, 1 << 16)
             if not buf:
-                break
+                break  # EOF before the announced length: the child died
             chunks.append(buf)
+            got += len(buf)
+            if need is None and got >= 8:
+                need = int.from_bytes(b"".join(chunks)[:8], "big")
     finally:
         os.close(r)
     if timed_out:
@@ -85,9 +91,10 @@ def fork_call(fn, args=(), timeout: float = 60.0):
     _, status = os.waitpid(pid, 0)
     if timed_out:
         raise HarnessError(f"watchdog: forked run did not finish within {timeout}s")
-    if not chunks:
-        raise HarnessError(f"forked run died without a result (status {status})")
-    kind, value = pickle.loads(b"".join(chunks))
+    blob = b"".join(chunks)
+    if need is None or len(blob) < need + 8:
+        raise HarnessError(f"forked run died without a complete result (status {status}, {len(blob)} bytes)")
+    kind, value = pickle.loads(blob[8:8 + need])
     if kind == "err":
         raise HarnessError("exception inside forked run:\n" + value)
     return value
@@ -136,12 +143,12 @@ class Pool:
             raise HarnessError(f"watchdog: batch exceeded {timeout}s") from e
 
     def close(self) -> None:
+        procs = dict(getattr(self.ex, "_processes", None) or {})  # shutdown() forgets them
         try:
             self.ex.shutdown(wait=False, cancel_futures=True)
         except Exception:  # noqa: BLE001
             pass
         # make sure no worker outlives the check
-        procs = getattr(self.ex, "_processes", None) or {}
         for p in list(procs.values()):
             try:
                 p.kill()
@@ -167,7 +174,7 @@ def die_with_parent() -> None:
         pass
 
 
-def worker_guard(seconds: float = 3600.0) -> None:
+def worker_guard(seconds: float = 6 * 3600.0) -> None:
     """Arm a traceback dump in a worker so that a hang leaves a diagnosis (once per worker)."""
     global _guarded
     if _guarded:
